@@ -301,6 +301,9 @@ def run(ctx):
     # subclass or pair objects yielding other pairs on a later pass): the wire must be the serialisation of the ONE
     # snapshot start_response validated (the pairs of the case are the first pass; fix b4f05b1)
     cases = cases + table + swallow + T.hostile_error_cases(rng, ctx.tier) + T.container_cases(rng, ctx.tier)
+    # every special-cased / nearly special-cased header name on every delivery path of the body (iterable, write(),
+    # file wrapper handed over with a declared length equal to / smaller / larger than the file: response_headers is rewritten)
+    cases = cases + T.name_path_cases()
     lines = [T.ser_case(c) for _, c in cases]
     answers = runner.query(lines) if runner is not None else [None] * len(lines)
     agree = True
